@@ -108,7 +108,8 @@ func runStream(in Sx) Sx {
 		for j := 0; j < ws.Len(); j++ {
 			frame = append(frame, ws.At(j).AsBytes()...)
 		}
-		if b, c := WireBody(ver, frame); c && len(b) > 0 && cidx == 0 {
+		// (an empty body too: a frame flagged compressed is handed to zlib whatever its length)
+		if b, c := WireBody(ver, frame); c && len(frame) >= HeaderSize(ver) {
 			AddUnzip(unzipT, b)
 		}
 		pos += len(frame)
@@ -410,6 +411,19 @@ func gen(a Args, out *Out) {
 				body := List(Int(5), Uint(uint64(uint32(rng.Next())|1)), Int(int64(bl)), Int(1))
 				p := List(Int(int64(int32(rng.Next()))), Int(int64(rng.Intn(65536))), Int(0x40), Int(0), Uint(9), ListOf(nil), body)
 				emit("default-threshold", List(Int(1), Int(int64(ver)), Int(int64(thr)), Int(int64(rng.PickInt(0, 3))), Uint(rng.Next()&0xFFFFFFFF), List(p), genSizes(rng, bl)))
+			}
+		}
+	}
+	// 1c. marshalling bits pre-set by the caller on an empty body (outside the round-trip premise;
+	// the decoder hands such a frame to the decryptor / zlib whatever its length): model = code
+	for _, ver := range []int{1, 2} {
+		for _, bits := range []int64{1, 2, 3} {
+			for _, cidx := range []int{0, 1 + rng.Intn(8)} {
+				p := List(Int(5), Int(6), Int(bits|0x40), Int(1), Uint(2), ListOf(nil), List(Int(rng.PickI64(0, 1)), Bytes(nil)))
+				if p.At(6).At(0).Int64() == 0 {
+					p = List(Int(5), Int(6), Int(bits|0x40), Int(1), Uint(2), ListOf(nil), List(Int(0)))
+				}
+				emit("preset-bits", List(Int(1), Int(int64(ver)), Int(0), Int(int64(cidx)), Uint(rng.Next()&0xFFFFFFFF), List(p), ListOf(nil)))
 			}
 		}
 	}
